@@ -24,7 +24,9 @@ CASE_TIMEOUT = 60
 RULE = ("cases: (i) direct: SnowfakeryApplication/IdManager driven with r generate_id calls per iteration, "
         "criterion None / reps k / (table, N), fresh or restored from last_used_ids (thorough: exhaustive over "
         "last0 in {fresh,0..6} x N in 1..8 x r in {0..3}^<=5, plus random larger); (ii) e2e sessions of 1-3 runs "
-        "chained by continuation files through generate_data / generate, iterations delimited by marker rows. "
+        "chained by continuation files through generate_data / generate (a new application object per run, or one "
+        "object reused for all runs), iterations delimited by marker rows; unknown targets include nicknames, '' "
+        "and a table only an earlier recipe had. "
         "Compared with the model: outcome class, number of complete iterations, rows of the target table. "
         "non-trivial: a (table, N) or reps criterion whose run takes >= 2 iterations, or is continued (direct: from a state with rows), or ends "
         "in an error; distinct by case hash")
@@ -127,6 +129,13 @@ def gen_e2e(rng):
         pz = rng.choice([0.0, 0.0, 0.15, 0.35])
         seq = [0 if rng.random() < pz else rng.randint(1, rng.choice([1, 2, 4])) for _ in range(rng.randint(1, 6))]
     api = rng.choice(["generate_data", "generate"])
+    if rng.random() < 0.22:
+        # one SnowfakeryApplication object (one criterion) drives the run and its continuations
+        crit = [TABLE, rng.choice([1, 2, 3, 4, 5, 6, 8])]
+        nruns = rng.choice([2, 2, 3])
+        return {"kind": "e2e", "shape": shape, "seq": seq, "api": api, "reuse": True,
+                "runs": [_run(crit, _cap_for(crit)) for _ in range(nruns)]}
+    old_table = rng.random() < 0.25
     runs = []
     nruns = rng.choice([1, 1, 2, 2, 2, 3])
     for i in range(nruns):
@@ -141,17 +150,27 @@ def gen_e2e(rng):
             else:
                 crit = [TABLE, rng.randint(1, 6)]
         else:
-            if u < 0.70:
+            if old_table and i > 0 and u < 0.35:
+                crit = [rng.choice(["X", "X", "xn"]), rng.randint(1, 3)]
+            elif u < 0.70:
                 crit = [TABLE, rng.choice([1, 2, 3, 4, 5, 6, 7, 9, 12])]
             elif u < 0.82:
                 crit = [COUNT_REPS, rng.choice([1, 2, 3, 4])]
             elif u < 0.88:
                 crit = None
             else:
-                crit = [rng.choice(["Q", "t", "T ", "Tt", ""]), rng.randint(1, 3)]
+                # names the recipe cannot create: misspellings, the empty name, NICKNAMES of the
+                # recipe's templates, and (continued runs) a table only the first run's recipe had
+                names = ["Q", "t", "T ", "Tt", "", "mk", "mk", "tn", "en"]
+                if old_table and i > 0:
+                    names += ["X", "X", "xn"]
+                crit = [rng.choice(names), rng.randint(1, 3)]
         form = rng.choice(["tuple", "swapped"]) if (api == "generate_data" and crit is not None) else "tuple"
         runs.append(_run(crit, _cap_for(crit), form))
-    return {"kind": "e2e", "shape": shape, "seq": seq, "api": api, "runs": runs}
+    case = {"kind": "e2e", "shape": shape, "seq": seq, "api": api, "runs": runs}
+    if old_table and nruns > 1:
+        case["old_table"] = True
+    return case
 
 
 def gen_e2e_fixed():
@@ -174,6 +193,18 @@ def gen_e2e_fixed():
     # fresh no-progress
     out.append({"kind": "e2e", "shape": "top", "seq": [1, 0, 1], "api": "generate_data", "runs": [_run([TABLE, 3], 6)]})
     out.append({"kind": "e2e", "shape": "top", "seq": [0], "api": "generate", "runs": [_run([TABLE, 1], 4)]})
+    # a target naming a nickname, fresh and continued; a table only the first run's recipe had
+    out.append({"kind": "e2e", "shape": "top", "seq": [1], "api": "generate_data", "runs": [_run(["mk", 2], 5)]})
+    out.append({"kind": "e2e", "shape": "const", "seq": [2], "api": "generate",
+                "runs": [_run([TABLE, 1], 4), _run(["tn", 2], 5)]})
+    out.append({"kind": "e2e", "shape": "const", "seq": [2], "api": "generate_data", "old_table": True,
+                "runs": [_run([TABLE, 1], 4), _run(["X", 1], 4)]})
+    # one application object reused for a run and its continuations: counted from each run's start
+    for api in ("generate_data", "generate"):
+        out.append({"kind": "e2e", "shape": "const", "seq": [2], "api": api, "reuse": True,
+                    "runs": [_run([TABLE, 4], 7), _run([TABLE, 4], 7), _run([TABLE, 4], 7)]})
+        out.append({"kind": "e2e", "shape": "top", "seq": [1, 2, 0, 3], "api": api, "reuse": True,
+                    "runs": [_run([TABLE, 3], 6), _run([TABLE, 3], 6)]})
     # former K10: the empty table name is an unknown table
     out.append({"kind": "e2e", "shape": "top", "seq": [1], "api": "generate", "runs": [_run(["", 1], 4)]})
     return out
@@ -207,24 +238,27 @@ def rows_of_iteration(case, g):
     return seq[g % len(seq)]
 
 
-def recipe_text(case):
+def recipe_text(case, with_old_table=False):
+    """Every template carries a nickname (mk, tn, pn, en[, xn]): a nickname is not a table."""
     shape, seq = case["shape"], case["seq"]
     expr = "${{ %s[(M.id - 1) %% %d] }}" % (str(list(seq)), len(seq))
     if shape == "top":
-        body = f"- object: T\n  count: {expr}\n"
+        body = f"- object: T\n  nickname: tn\n  count: {expr}\n"
     elif shape == "const":
-        body = f"- object: T\n  count: {seq[0]}\n"
+        body = f"- object: T\n  nickname: tn\n  count: {seq[0]}\n"
     elif shape == "just_once":
-        body = f"- object: T\n  just_once: true\n  count: {seq[0]}\n"
+        body = f"- object: T\n  nickname: tn\n  just_once: true\n  count: {seq[0]}\n"
     elif shape == "friend":
-        body = f"- object: P\n  friends:\n    - object: T\n      count: {seq[0]}\n"
+        body = f"- object: P\n  nickname: pn\n  friends:\n    - object: T\n      nickname: tn\n      count: {seq[0]}\n"
     elif shape == "field":
         # one T row through a field of P, plus a varying number at top level
-        body = (f"- object: P\n  fields:\n    t:\n      - object: T\n"
-                f"- object: T\n  count: {expr}\n")
+        body = (f"- object: P\n  nickname: pn\n  fields:\n    t:\n      - object: T\n"
+                f"- object: T\n  nickname: tn\n  count: {expr}\n")
     else:
         raise ValueError(shape)
-    return "- object: M\n" + body + "- object: E\n"
+    if with_old_table:
+        body += "- object: X\n  nickname: xn\n"
+    return "- object: M\n  nickname: mk\n" + body + "- object: E\n  nickname: en\n"
 
 
 # ---------------------------------------------------------------- implementation
@@ -289,12 +323,18 @@ _LINE = re.compile(r"^([A-Za-z_]\w*)\(")
 def _run_e2e(case):
     from snowfakery.data_generator_runtime import StoppingCriteria
     from snowfakery.output_streams import OutputStream
-    recipe = recipe_text(case)
     cont_text = None
     runs_obs = []
+    shared_app = None
+    if case.get("reuse"):
+        from snowfakery.api import SnowfakeryApplication
+        c0 = case["runs"][0]["crit"]
+        shared_app = SnowfakeryApplication(StoppingCriteria(c0[0], c0[1]))
 
-    for run in case["runs"]:
+    for idx, run in enumerate(case["runs"]):
         crit, cap = run["crit"], run["cap"]
+        # the table X exists only in the recipe of the first run of an "old_table" session
+        recipe = recipe_text(case, with_old_table=bool(case.get("old_table")) and idx == 0)
         rows = []
 
         def saw(table):
@@ -318,8 +358,9 @@ def _run_e2e(case):
                     def close(self, **kw):
                         return []
 
-                generate(io.StringIO(recipe), {}, Capture(),
-                         stopping_criteria=StoppingCriteria(crit[0], crit[1]) if crit else None,
+                generate(io.StringIO(recipe), {}, Capture(), shared_app,
+                         stopping_criteria=(StoppingCriteria(crit[0], crit[1]) if crit else None)
+                         if shared_app is None else None,
                          generate_continuation_file=new_cont,
                          continuation_file=io.StringIO(cont_text) if cont_text is not None else None)
             else:
@@ -337,10 +378,10 @@ def _run_e2e(case):
                         pass
 
                 tn = None
-                if crit:
+                if crit and shared_app is None:
                     tn = (crit[1], crit[0]) if run["form"] == "swapped" else (crit[0], crit[1])
                 generate_data(io.StringIO(recipe), output_file=CapIO(), output_format="txt",
-                              target_number=tn, generate_continuation_file=new_cont,
+                              target_number=tn, parent_application=shared_app, generate_continuation_file=new_cont,
                               continuation_file=io.StringIO(cont_text) if cont_text is not None else None)
         except _Runaway:
             outcome = "runaway"
@@ -348,7 +389,7 @@ def _run_e2e(case):
             raise
         except BaseException as e:
             outcome = C.canon_exc(e)
-        runs_obs.append({"outcome": outcome, "rows": "".join(t[0] if t in ("M", "T", "E", "P") else "?" for t in rows)})
+        runs_obs.append({"outcome": outcome, "rows": "".join(t[0] if t in ("M", "T", "E", "P", "X") else "?" for t in rows)})
         if outcome != "ok":
             break
         cont_text = new_cont.getvalue()
@@ -382,12 +423,12 @@ def _coutcome(o):
     return f"(Exhausted {C.cnat(o[1])})"
 
 
-_WHOLE = re.compile(r"^(M[TP]*E)*$")
+_WHOLE = re.compile(r"^(M[TPX]*E)*$")
 
 
 def parse_rows(rows):
     """-> (per-iteration T counts of the complete iterations, whole?)"""
-    counts = [seg.count("T") for seg in re.findall(r"M[TP]*E", rows)]
+    counts = [seg.count("T") for seg in re.findall(r"M[TPX]*E", rows)]
     return counts, bool(_WHOLE.match(rows))
 
 
@@ -414,8 +455,12 @@ def coq_case(case, obs):
             exp.append(_coutcome(["exhausted", n]))
         else:
             exp.append(_coutcome(["failed", n, ro["outcome"]]))
-    runs = C.clist(C.cpair(_ccrit(r["crit"]), C.cnat(r["cap"])) for r in case["runs"])
     tables = C.clist(C.cstr(t) for t in (["M", "T", "E"] + (["P"] if case["shape"] in ("friend", "field") else [])))
+    if case.get("reuse"):
+        caps = C.clist(C.cnat(r["cap"]) for r in case["runs"])
+        return (f"CChainReuse {tables} {C.clist(C.cz(r) for r in _session_rs(case))} "
+                f"{_ccrit(case['runs'][0]['crit'])} {caps} {C.clist(exp)}")
+    runs = C.clist(C.cpair(_ccrit(r["crit"]), C.cnat(r["cap"])) for r in case["runs"])
     return (f"CChain {tables} {C.clist(C.cz(r) for r in _session_rs(case))} {runs} {C.clist(exp)}")
 
 
@@ -484,11 +529,14 @@ def _violations(case, obs):
     v = []
     total_t = 0
     for i, (run, ro) in enumerate(zip(case["runs"], obs["runs"])):
-        where = f"run {i + 1} of {len(case['runs'])} ({'continued' if i else 'fresh'}, {case['api']})"
-        crit = run["crit"]
+        where = (f"run {i + 1} of {len(case['runs'])} ({'continued' if i else 'fresh'}, {case['api']}"
+                 f"{', one application object for all runs' if case.get('reuse') else ''})")
+        # a reused application object carries its own (single) criterion
+        crit = case["runs"][0]["crit"] if case.get("reuse") else run["crit"]
         counts, whole = parse_rows(ro["rows"])
         oc = ro["outcome"]
-        known_tables = {"M", "T", "E", "P"}
+        known_tables = {"M", "T", "E"} | ({"P"} if case["shape"] in ("friend", "field") else set()) \
+            | ({"X"} if case.get("old_table") and i == 0 else set())
         if crit and crit[0] != COUNT_REPS and crit[0] not in known_tables:
             if oc != "DGE" or ro["rows"]:
                 v.append(("other", f"{where}: target table {crit[0]!r} cannot be created by the recipe but the run "
@@ -558,6 +606,7 @@ def stats(cases, obss):
     shapes = Counter()
     nruns = Counter()
     apis = Counter()
+    feats = Counter()
     zeros = 0
     for c, o in zip(cases, obss):
         if not isinstance(o, dict):
@@ -574,6 +623,16 @@ def stats(cases, obss):
             shapes[c["shape"]] += 1
             nruns[len(c["runs"])] += 1
             apis[c["api"]] += 1
+            feats["reused_application"] += 1 if c.get("reuse") else 0
+            feats["first_recipe_has_extra_table"] += 1 if c.get("old_table") else 0
+            for r in c["runs"]:
+                k = r["crit"]
+                if k and k[0] in ("mk", "tn", "en", "pn", "xn"):
+                    feats["target_is_nickname"] += 1
+                elif k and k[0] == "X":
+                    feats["target_is_table_of_earlier_recipe"] += 1
+                elif k and k[0] not in (COUNT_REPS, TABLE):
+                    feats["target_other_unknown"] += 1
             for r, ro in zip(c["runs"], o["runs"]):
                 k = r["crit"]
                 crit["none" if k is None else "reps" if k[0] == COUNT_REPS else "target"] += 1
@@ -583,7 +642,7 @@ def stats(cases, obss):
             "iterations_per_run(10=10+)": {str(k): v for k, v in sorted(iters.items())},
             "direct_start": dict(conts), "direct_with_zero_iteration": zeros,
             "e2e_shapes": dict(shapes), "e2e_runs_per_session": {str(k): v for k, v in nruns.items()},
-            "e2e_api": dict(apis)}
+            "e2e_api": dict(apis), "e2e_features": dict(feats)}
 
 
 def shrink(case):
@@ -607,6 +666,11 @@ def shrink(case):
         if len(case["seq"]) > 1:
             yield dict(case, seq=case["seq"][:-1])
             yield dict(case, seq=case["seq"][1:])
+        if case.get("reuse"):
+            c0 = runs[0]["crit"]
+            if c0[1] > 1:
+                yield dict(case, runs=[dict(r, crit=[c0[0], c0[1] - 1]) for r in runs])
+            return
         for i, r in enumerate(runs):
             if r["crit"] and r["crit"][1] > 1:
                 nr = dict(r, crit=[r["crit"][0], r["crit"][1] - 1])
